@@ -18,7 +18,11 @@ def get_func(p, cname, fname):
         if f is None or not hasattr(f, "node"):
             raise AnalysisError("anchor function %s not found" % fname)
         return f
-    c = p.find_class(cname)
+    if ":" in cname:
+        mod, cn = cname.split(":")
+        c = p.cls(mod, cn)
+    else:
+        c = p.find_class(cname)
     if "." in fname:
         pn, acc = fname.split(".")
         pr = c.find_prop(pn)
